@@ -90,17 +90,15 @@ Proof.
 Qed.
 Print Assumptions multinet_converged_iff_all.
 
-Theorem init_or_is_and : forall flags, flags <> [] -> (forall b, In b flags -> b = true) ->
-  init_converged flags = true /\ init_converged flags = forallb (fun b => b) flags.
-Proof. exact init_or_is_and_lemma. Qed.
-Print Assumptions init_or_is_and.
-
-(* the faithful model combines the initial-run flags with max (= any): without the hypothesis of
-   init_or_is_and the multinet flag is NOT the conjunction *)
-Theorem init_converged_is_all_refuted :
-  exists flags, init_converged flags = true /\ forallb (fun b => b) flags = false.
-Proof. exists [true; false]. split; reflexivity. Qed.
-Print Assumptions init_converged_is_all_refuted.
+(* after the initial runs the multinet flag is the conjunction of the members' flags *)
+Theorem init_converged_is_all : forall flags,
+  init_converged flags = forallb (fun b => b) flags /\
+  (init_converged flags = true <-> forall b, In b flags -> b = true).
+Proof.
+  intro flags. split; [apply init_converged_is_all_lemma|].
+  rewrite init_converged_is_all_lemma, forallb_forall. tauto.
+Qed.
+Print Assumptions init_converged_is_all.
 
 (* ---- non-vacuity *)
 Example hhv_example : (14.62197 <> 0)%R /\ (p2g_written 50 (1/2) 16 (1/2) * 1152 = 250)%R.
